@@ -54,6 +54,8 @@ type room struct {
 	// map-iteration salt.
 	fed  bool
 	salt uint64
+	// the create event lists additional_creators
+	extraCreators bool
 }
 
 func uidFor(roomID spec.RoomID, sender spec.SenderID) (*spec.UserID, error) {
@@ -261,8 +263,14 @@ func (rm *room) bootstrap() error {
 	content := map[string]any{"room_version": string(rm.ver)}
 	if !rm.priv {
 		content["creator"] = creator.id
+		if len(rm.users) > 2 && t.Chance(120) {
+			// meaningless before privileged creators, and unchecked there
+			content["additional_creators"] = []string{rm.users[1].id}
+			rm.extraCreators = true
+		}
 	} else if len(rm.users) > 2 && t.Chance(300) {
 		content["additional_creators"] = []string{rm.users[1].id}
+		rm.extraCreators = true
 	}
 	rm.roomID = fmt.Sprintf("!room:%s", creator.srv.Name)
 	n, err := rm.add(creator, nil, map[ref.Key]string{}, spec.MRoomCreate, world.Str(""), content, nil)
@@ -287,7 +295,11 @@ func (rm *room) bootstrap() error {
 	if err := step(creator, spec.MRoomMember, creator.id, map[string]any{"membership": "join"}); err != nil {
 		return err
 	}
-	if t.Chance(800) {
+	plChance := 800
+	if rm.extraCreators {
+		plChance = 500 // more rooms whose first power-levels event is still to come
+	}
+	if t.Chance(plChance) {
 		if err := step(creator, spec.MRoomPowerLevels, "", rm.defaultPL(creator)); err != nil {
 			return err
 		}
